@@ -8,7 +8,7 @@ from framework import hexs
 def case(rng, k, lang=None):
     lang = lang or rng.choice(['applesoft', 'integer'])
     pl = renumgen.program(rng, lang, nlines=rng.choice([1, 2, 3, 5, 8, 15, 30]), blanks=rng.random() < 0.3)
-    sep = rng.choice(['\n', '\n', '\r\n'])
+    sep = rng.choice(['\n', '\n', '\r\n', 'mix'])
     nums = [m[3] for l in pl for m in langgen.split_marks(l)[1] if m[0] == 'def']
     if not nums:
         return None
@@ -41,7 +41,7 @@ def boundary_cases(rng):
     ]
     for lang, pl in progs:
         nums = [m[3] for l in pl for m in langgen.split_marks(l)[1] if m[0] == 'def']
-        for sep in ['\n', '\r\n']:
+        for sep in ['\n', '\r\n', 'mix']:
             for (beg, end) in [(0, 70000), (nums[0], nums[0] + 1), (nums[-1], nums[-1] + 1), (nums[1], nums[-1]), (nums[0] + 1, nums[-1] + 1)]:
                 for (first, step) in [(1, 1), (5, 5), (nums[0], 10), (100000, 1), (63999, 1), (63998, 1), (32767, 1), (7, 100), (10000, 10000), (nums[-1] + 1, 1)]:
                     for reorder in [0, 1]:
@@ -75,10 +75,13 @@ def run(ctx, model_ok=True):
         if o == 'rejected':
             stats['source rejected by verify_str'] += 1
             continue
-        exp = renumgen.expected(c['lines'], c['lang'], c['beg'], c['end'], c['first'], c['step'], c['reorder'], c['sep'])
+        # a text with both endings: which of the two the result uses is a2kit's choice, the lines are compared with LF throughout
+        exp = renumgen.expected(c['lines'], c['lang'], c['beg'], c['end'], c['first'], c['step'], c['reorder'], '\n' if c['sep'] == 'mix' else c['sep'])
         got = None
         if o and o.startswith('ok '):
             got = bytes.fromhex(o[3:-1]).decode(errors='replace')
+            if c['sep'] == 'mix':
+                got = got.replace('\r\n', '\n')
         c['got'] = got
         fail = None
         if o is None or o.startswith('PANIC'):
